@@ -227,6 +227,17 @@ def check(prop: str, tier: str, verif_seed: int) -> int:
     if not summaries:
         print(f'HARNESS-ERROR property={prop} no session was run', flush=True)
         exit_code = 2
+    # ---- determinism re-check: sampled sessions are executed again here (another process, another worker
+    # count) and must give the same digest
+    recheck = {'sessions': 0, 'mismatches': 0}
+    for s_ in [x for x in summaries if 'spec' in x and x['status'] == 'done'][:4]:
+        again = core.run_spec(world, s_['spec'])
+        recheck['sessions'] += 1
+        if again.get('digest') != s_['digest']:
+            recheck['mismatches'] += 1
+            print(f'HARNESS-ERROR property={prop} seed={s_["seed"]} is not deterministic: digest {s_["digest"][:12]} vs '
+                  f'{again.get("digest", "")[:12]}', flush=True)
+            exit_code = 2 if exit_code == 0 else exit_code
     # ---- evidence
     agg = _agg(summaries)
     distinct = {}
@@ -268,6 +279,7 @@ def check(prop: str, tier: str, verif_seed: int) -> int:
             'components': entry['components'],
             'known_findings_seen': known_hits,
             'harness_errors': len(harness) + len(worker_failed),
+            'determinism_recheck': recheck,
             'replays': replays,
             'technique': 'deterministic simulation with fault injection (seeded sessions, forked '
                          'process lifetimes, reference model, FS/clock/RNG seams)',
